@@ -5,6 +5,7 @@ package main
 
 import (
 	"fmt"
+	"sort"
 	"time"
 
 	"github.com/Tom-Johnston/mamba/graph"
@@ -100,6 +101,8 @@ func configs(tier string) []config {
 		for _, m := range []int{1, 2, 3, 4, 5, 7, 11} {
 			cs = append(cs, config{9, m, -1, 0})
 		}
+		// n = 10 unpruned, once: 12 005 168 graphs, pairwise distinct codes + count = A000088(10)
+		cs = append(cs, config{10, 3, -1, 0})
 		for _, p := range []int{0, 3, 4, 5, 6, 7} {
 			for pl := 0; pl < 2; pl++ {
 				for _, m := range []int{1, 2, 3, 4, 6} {
@@ -127,8 +130,28 @@ func runConfig(r *driver.Run, c config, predName string, pf func(*model.G) bool)
 	n, m := c.n, c.m
 	never := func(g *graph.DenseGraph) bool { return false }
 	calls := 0
+	// In a third of the configurations the predicate behaves like user code that looks at the
+	// graph through the library's observers and keeps / overwrites what they return (the
+	// results of observers belong to the caller), and through a live view of it.
+	observe := t.Chance(1, 3)
 	pr := func(g *graph.DenseGraph) bool {
 		calls++
+		if observe {
+			deg := g.Degrees()
+			for i := range deg {
+				deg[i] = -1
+			}
+			if g.N() > 0 {
+				nb := g.Neighbours(g.N() - 1)
+				for i := range nb {
+					nb[i] = -1
+				}
+			}
+			c := graph.Complement(g)
+			_ = graph.MaxDegree(c)
+			_ = c.Degrees()
+			_ = graph.MinDegree(g)
+		}
 		return !pf(gutil.ToModel(g))
 	}
 	pre, pru := never, never
@@ -143,7 +166,7 @@ func runConfig(r *driver.Run, c config, predName string, pf func(*model.G) bool)
 		}
 	}
 	policy := t.Draw(3) // 0 round-robin, 1 one after another, 2 tape-random
-	r.Logf("config n=%d m=%d predicate=%s placement=%s interleaving=%s", n, m, predName, []string{"preprune", "prune", "both"}[c.placement], []string{"round-robin", "sequential", "random"}[policy])
+	r.Logf("config n=%d m=%d predicate=%s placement=%s interleaving=%s predicate-uses-library-observers=%v", n, m, predName, []string{"preprune", "prune", "both"}[c.placement], []string{"round-robin", "sequential", "random"}[policy], observe)
 	iters := make([]*search.GraphIterator, m)
 	budget := int64(400_000_000)
 	for a := 0; a < m; a++ {
@@ -162,6 +185,10 @@ func runConfig(r *driver.Run, c config, predName string, pf func(*model.G) bool)
 	}
 	seen := map[model.Code]int{} // code -> shard that produced it first
 	firstG := map[model.Code]string{}
+	// very large unpruned searches (n = 10: 12 005 168 graphs): codes are collected in a flat
+	// slice and checked for duplicates by sorting at the end
+	huge := pf == nil && n >= 10
+	var codes []uint64
 	perShard := make([]int, m)
 	total := 0
 	rr := 0
@@ -206,6 +233,12 @@ func runConfig(r *driver.Run, c config, predName string, pf func(*model.G) bool)
 			r.Fail("malformed-value", "Value", "shard %d/%d of n=%d (%s) yielded a malformed graph (#%d of the shard): %s", a, m, n, predName, perShard[a], wf)
 		}
 		code, _ := model.Canon(mg)
+		if huge {
+			codes = append(codes, code.Bits)
+			perShard[a]++
+			total++
+			continue
+		}
 		if prev, dup := seen[code]; dup {
 			r.Fail("duplicate", "two yielded graphs are isomorphic", "n=%d m=%d %s: shard %d yielded %s which is isomorphic to %s yielded by shard %d", n, m, predName, a, gutil.G6(mg), firstG[code], prev)
 		}
@@ -222,6 +255,15 @@ func runConfig(r *driver.Run, c config, predName string, pf func(*model.G) bool)
 		}
 	}
 	r.Logf("... %d graphs in all, per shard %v, predicate called %d times", total, perShard, calls)
+	if huge {
+		sort.Slice(codes, func(i, j int) bool { return codes[i] < codes[j] })
+		for i := 1; i < len(codes); i++ {
+			if codes[i] == codes[i-1] {
+				r.Fail("duplicate", "two yielded graphs are isomorphic", "n=%d m=%d unpruned: two yielded graphs have the same canonical code %x", n, m, codes[i])
+			}
+		}
+		r.Probe("huge-unpruned-search-checked-by-sorted-codes")
+	}
 	// completeness
 	if pf == nil && n < len(model.A000088) {
 		if total != model.A000088[n] {
@@ -293,7 +335,7 @@ func main() {
 		Engine:   "shard-cluster",
 		Level:    "exploration",
 		Rule: "a case is one configuration (n, m, hereditary predicate, placement as preprune / prune / both): all m shard iterators are created and advanced by one consumer in a seeded interleaving (round-robin, one after another, tape-random) until all are exhausted (and must stay exhausted); every yielded value must be a well-formed graph on n vertices, the independent canonical codes of all yielded graphs must be pairwise distinct and their set must equal the independently generated set of classes satisfying the predicate (unpruned: additionally the count must equal A000088(n)). " +
-			"Enumerated: all (n <= 7, m <= 12) unpruned and with each of 8 listed predicates x 3 placements; n = 8 unpruned for m <= 8 and predicates for m in {1,2,3,5} (thorough: m <= 16 resp. 12; n = 9 unpruned for 7 values of m); n = 9, 10 (thorough 10, 11) for the strongly pruned families triangle-free, bipartite, max-degree<=2, edges<=5, forest. Random runs draw n <= 7, m <= 10 (one in six: m from {13,...,257}) and a tape-drawn hereditary predicate (listed, induced-H-free for a random H on 2-4 vertices, or a conjunction). Non-trivial = at least 4 graphs yielded; distinct = distinct fingerprints of the yielded code sequences.",
+			"Enumerated: all (n <= 7, m <= 12) unpruned and with each of 8 listed predicates x 3 placements; n = 8 unpruned for m <= 8 and predicates for m in {1,2,3,5} (thorough: m <= 16 resp. 12; n = 9 unpruned for 7 values of m and n = 10 unpruned once); n = 9, 10 (thorough 10, 11) for the strongly pruned families triangle-free, bipartite, max-degree<=2, edges<=5, forest. Random runs draw n <= 7, m <= 10 (one in six: m from {13,...,257}) and a tape-drawn hereditary predicate (listed, induced-H-free for a random H on 2-4 vertices, or a conjunction). Non-trivial = at least 4 graphs yielded; distinct = distinct fingerprints of the yielded code sequences.",
 		Assumptions: []string{
 			"predicates are hereditary (closed under induced subgraphs) by construction",
 			"n <= 8 unpruned (9 in thorough), n <= 10 (11 in thorough) for strongly pruned families: a defect that needs more vertices is not reached",
